@@ -18,7 +18,7 @@
 (* those of a direct evaluation of the tree - operator, operand order,     *)
 (* argument order; (3) the result is the root's value.                     *)
 (***************************************************************************)
-EXTENDS ExprEval, Json
+EXTENDS ExprEval, Json, Held
 VARIABLE l
 Trace == ndJsonDeserialize("trace.ndjson")
 F(ok, name) == IF ok THEN "" ELSE name \o "; "
@@ -44,7 +44,7 @@ Init == l = 1
 Next ==
   /\ l <= Len(Trace)
   /\ l' = l + 1
-  /\ LET f == Fails(Trace[l]) IN f = "" \/ PrintT("VERIF-FAIL " \o ToString(l) \o " " \o f)
+  /\ LET f == Fails(Trace[l]) IN Report(l, f, Trace[l])
 Spec == Init /\ [][Next]_l
 Accepted == TLCGet("stats").diameter - 1 = Len(Trace)
 =============================================================================
